@@ -1,26 +1,40 @@
 #!/bin/bash
-# tools/seed_matrix.sh [seeds...] — detection robustness: run every seeded regression against the check of its own
-# property under several VERIF_SEED values; writes seeded/MATRIX.md (one row per seed, one column per VERIF_SEED).
+# tools/seed_matrix.sh [VERIF_SEED values...] — detection robustness: run every seeded regression against the check
+# that is recorded as catching it (its own property's check where that one does, see meta.json -> checks) under
+# several VERIF_SEED values; writes seeded/MATRIX.md (one row per seed, one column per VERIF_SEED).
+# Three patched scratch copies are checked at a time.
 cd "$(dirname "$0")/.."
 seeds="${@:-1 2 3}"
 out=seeded/MATRIX.md
+work=$(mktemp -d /dev/shm/matrix.XXXXXX)
+trap 'rm -rf "$work"' EXIT
+/venv/bin/python - > "$work/jobs" <<'PY'
+import glob, json, os
+for path in sorted(glob.glob("seeded/*/meta.json")):
+    meta = json.load(open(path))
+    name = meta["name"]
+    own = name.split("-")[0]
+    detected = sorted(check for check, verdict in meta.get("checks", {}).items() if verdict.get("exit") == 1)
+    check = own if own in detected or not detected else detected[0]
+    print(name, check)
+PY
+while read -r name check; do for s in $seeds; do echo "$name $check $s"; done; done < "$work/jobs" |
+  xargs -P 3 -L 1 bash -c 'code=$(VERIF_SEED=$2 tools/mutant_test.sh seeded/$0/patch.diff $1 2>/dev/null | tail -1 | sed "s/.*exit=//"); echo "$0 $1 $2 $code" >> '"$work"'/results'
 {
-echo "# Detection of the seeded regressions by the quick tier of their own property's check"
+echo "# Detection of the seeded regressions by the quick tier"
 echo
-echo "One run per (seed, VERIF_SEED); 1 = VIOLATION reported (exit 1), 0 = not detected, 2 = harness failure."
-echo "C10-4 needs a history and is run against C08."
+echo "One run per (seed, VERIF_SEED) against the check recorded as catching the seed (the check of its own"
+echo "property wherever that one does); 1 = VIOLATION reported (exit 1), 0 = not detected, 2 = harness failure."
 echo
 echo "| seed | check | $(for s in $seeds; do echo -n "VERIF_SEED=$s | "; done)"
 echo "|---|---|$(for s in $seeds; do echo -n "---|"; done)"
-for dir in seeded/*/; do
-  name=$(basename "$dir"); id=${name%-*}; check=$id
-  [ "$name" = "C10-4" ] && check=C08
+while read -r name check; do
   row="| $name | $check |"
   for s in $seeds; do
-    code=$(VERIF_SEED=$s tools/mutant_test.sh "$dir/patch.diff" "$check" 2>/dev/null | tail -1 | sed 's/.*exit=//')
-    row="$row $code |"
+    code=$(grep "^$name $check $s " "$work/results" | tail -1 | cut -d" " -f4)
+    row="$row ${code:-?} |"
   done
   echo "$row"
-done
+done < "$work/jobs"
 } > "$out.tmp" && mv "$out.tmp" "$out"
-cat "$out" | tail -62
+grep -c "| 1 |" "$out"; grep -v "| 1 |" "$out" | tail -20
